@@ -153,6 +153,7 @@ func init() {
 			"Not decided: that the permutation arithmetic (UnsafePermute, cycle following, iterator order) is the right permutation; the composition law.",
 		Quick: []string{"default", "inplacetranspose"},
 		Run: func(rc *rules.RC) {
+			rules.T8(rc)
 			rules.T7(rc)
 			rules.SV(rc, 20)
 			rules.V2(rc, 2)
@@ -348,6 +349,7 @@ func init() {
 		Explain: "Decides: (L0) IsColMajor/IsRowMajor/HasSameOrder are what they claim and prepDataVV/VS/SV/Unary iterate whenever two participants disagree on data order; (L3) raw two-tensor accesses (Copy, Float32/64Engine.Add) and row-major-only kernels (ReduceFirst/ReduceLast) are conditioned on the data order; (L4) exporters into row-major formats consult it; (LB) BLAS gateways derive leading dimensions from each operand's order; (LD) every argument of every BLAS call is the one the operands' and the result's data order and lazy-transpose state require (all 32 layout cases of MatMul, 4 of MatVecMul, Outer, Inner); (T4) stride routines are selected by order in calcStrides and Transpose; (S10) the two stride calculators are one recurrence run in opposite directions; (S11) whoever flips the column-major bit recomputes the strides; (S12) AP.S picks the outermost axis by data order and marks column-major slices non-contiguous; (K3/K1arms) the typed arms of the BLAS gateways agree with each other (an operand swap in one precision is reported); (LC/LF) new raw copies / flat element loops must be layout-guarded and (LF) order-aware. Several of these fail on the pinned tree and are listed as known findings (17-19, 21, 40, 41). " +
 			"Not decided: block-size arithmetic of stack/concat under column-major (seed R2C16b is not caught); StackDense order agreement.",
 		Run: func(rc *rules.RC) {
+			rules.T8(rc)
 			rules.SS(rc)
 			rules.WC(rc, 15)
 			rules.L0(rc, nil)
